@@ -24,6 +24,15 @@ use std::task::{Context, Poll, Waker};
 /// future means the harness itself is wrong: that is a panic with a recognisable message, which
 /// the properties report as an inconclusive harness failure, never as a violation of the code.
 pub fn block_on<F: Future>(f: F) -> F::Output {
+    // every driven future gets a budget of SPI exchanges unless an outer guard is armed already (a loop
+    // that polls the chip without awaiting the interrupt line would otherwise never come back)
+    if XFER_BUDGET.with(|b| b.get()).is_none() {
+        return with_xfer_budget(50_000, || block_on_inner(f));
+    }
+    block_on_inner(f)
+}
+
+fn block_on_inner<F: Future>(f: F) -> F::Output {
     let mut f = std::pin::pin!(f);
     let mut cx = Context::from_waker(Waker::noop());
     for _ in 0..8 {
@@ -167,8 +176,37 @@ impl<C: ChipModel> ErrorType for Spi<C> {
     type Error = SpiErr;
 }
 
+thread_local! {
+    /// SPI exchanges left for the guarded call in progress on this thread (None: no guard armed)
+    static XFER_BUDGET: Cell<Option<u32>> = const { Cell::new(None) };
+}
+/// text of the panic that ends a guarded call which keeps exchanging with the chip without ever returning
+pub const XFER_HANG_MSG: &str = "SPI exchange budget exceeded: the call keeps polling the chip and does not return";
+/// Runs `f` with a budget of SPI exchanges (a fetch needs a few dozen): a driver or adapter loop that never
+/// awaits the interrupt line cannot be bounded by `IRQ_WAIT_BUDGET`; it ends in a panic carrying `XFER_HANG_MSG`.
+pub fn with_xfer_budget<T>(budget: u32, f: impl FnOnce() -> T) -> T {
+    struct Disarm;
+    impl Drop for Disarm {
+        fn drop(&mut self) {
+            XFER_BUDGET.with(|b| b.set(None));
+        }
+    }
+    XFER_BUDGET.with(|b| b.set(Some(budget)));
+    let _d = Disarm;
+    f()
+}
+
 impl<C: ChipModel> SpiDevice<u8> for Spi<C> {
     async fn transaction(&mut self, operations: &mut [Operation<'_, u8>]) -> Result<(), SpiErr> {
+        XFER_BUDGET.with(|b| {
+            if let Some(n) = b.get() {
+                if n == 0 {
+                    b.set(None);
+                    panic!("{}", XFER_HANG_MSG);
+                }
+                b.set(Some(n - 1));
+            }
+        });
         let mut mosi = [0u8; MAX_XFER];
         let mut miso = [0u8; MAX_XFER];
         let mut n = 0usize;
